@@ -107,6 +107,109 @@ pub fn render_json(p: &Program, model: &RefResult) -> serde_json::Value {
     })
 }
 
+/// v4: a directed family with fixed instruction sizes whose encodings depend on the POSITION through a user function
+/// and through a pseudo-instruction (an asm block that pushes its own return address):
+///     #fn relq(t) => t - $ - 2
+///     jrq {t: u16} => 0x18 @ relq(t)`8        callq {a: u16} => asm { pushq retq / jmpq {a} / retq: }
+/// Every size is known without any value (callq 6 bytes, jrq 2, nopq 1), so the reference is a direct computation:
+/// addresses by summing sizes, then each encoding "applied to its evaluated arguments at its own address".
+fn run_position_function(t: &mut Tape, ctx: &mut CaseCtx) -> Verdict {
+    #[derive(Clone, Copy)]
+    enum It {
+        Call(usize),
+        JrConst,
+        JrLabel(usize),
+        Nop,
+        Label(usize),
+    }
+    let nlab = t.urange(1, 4);
+    let n = t.urange(3, 12);
+    let mut items: Vec<It> = Vec::new();
+    for _ in 0..n {
+        items.push(match t.weighted(&[3, 4, 2, 2]) {
+            0 => It::Call(t.below(nlab)),
+            1 => It::JrConst,
+            2 => It::JrLabel(t.below(nlab)),
+            _ => It::Nop,
+        });
+    }
+    for l in 0..nlab {
+        let at = t.below(items.len() + 1);
+        items.insert(at, It::Label(l));
+    }
+    let reset: u64 = *t.pick(&[0x40u64, 0x10, 0x7f, 0x00]);
+    let via_rule = t.flip();
+    let mut src = String::from("#fn relq(t) => t - $ - 2\n#ruledef\n{\n    nopq => 0x00\n    pushq {v: u16} => 0x68 @ v\n    jmpq {a: u16} => 0x4c @ a\n");
+    if via_rule {
+        src.push_str("    jrq {t: u16} => 0x18 @ relq(t)`8\n");
+    } else {
+        src.push_str("    jrq {t} => 0x18 @ t`8\n");
+    }
+    src.push_str("    callq {a: u16} => asm\n    {\n        pushq retq\n        jmpq {a}\n        retq:\n    }\n}\nRESETQ = ");
+    src.push_str(&format!("{:#06x}\n", reset));
+    let jr = |target: &str| if via_rule { format!("jrq {}\n", target) } else { format!("jrq relq({})\n", target) };
+    // layout
+    let mut addr = 0u64;
+    let mut lab_addr = vec![0u64; nlab];
+    let mut addrs = Vec::new();
+    for it in &items {
+        addrs.push(addr);
+        match it {
+            It::Call(_) => addr += 6,
+            It::JrConst | It::JrLabel(_) => addr += 2,
+            It::Nop => addr += 1,
+            It::Label(l) => lab_addr[*l] = addr,
+        }
+    }
+    let mut want: Vec<u8> = Vec::new();
+    for (it, a) in items.iter().zip(addrs.iter()) {
+        match it {
+            It::Call(l) => {
+                src.push_str(&format!("callq lq{}\n", l));
+                let ret = a + 6;
+                want.extend([0x68, (ret >> 8) as u8, ret as u8, 0x4c, (lab_addr[*l] >> 8) as u8, lab_addr[*l] as u8]);
+            }
+            It::JrConst => {
+                src.push_str(&jr("RESETQ"));
+                want.extend([0x18, (reset as i64 - *a as i64 - 2) as u8]);
+            }
+            It::JrLabel(l) => {
+                src.push_str(&jr(&format!("lq{}", l)));
+                want.extend([0x18, (lab_addr[*l] as i64 - *a as i64 - 2) as u8]);
+            }
+            It::Nop => {
+                src.push_str("nopq\n");
+                want.push(0);
+            }
+            It::Label(l) => src.push_str(&format!("lq{}:\n", l)),
+        }
+    }
+    ctx.set_hash_str(&src);
+    ctx.label("position-function-family");
+    let call_before_const_jump = items.iter().position(|i| matches!(i, It::Call(_))).zip(items.iter().rposition(|i| matches!(i, It::JrConst))).map(|(c, j)| c < j).unwrap_or(false);
+    if call_before_const_jump {
+        ctx.label("position-function-family:constant-target-behind-pseudo-instruction");
+    }
+    ctx.nontrivial = call_before_const_jump;
+    let want_bits: Vec<bool> = want.iter().flat_map(|b| (0..8).rev().map(move |k| (b >> k) & 1 == 1)).collect();
+    ctx.render(|| json!({"source": src, "model": format!("ok {} bits {}", want_bits.len(), sut::bits_hex(&want_bits))}));
+    let out = sut::assemble_src(&src, &Opts::default());
+    ctx.evals += 1;
+    let fail = |c: &str, d: String, ctx: &mut CaseCtx| {
+        ctx.want_render = true;
+        ctx.render(|| json!({"source": src, "model": format!("ok {} bits {}", want_bits.len(), sut::bits_hex(&want_bits))}));
+        Verdict::fail(format!("position-function|{}", c), d)
+    };
+    match &out {
+        sut::AsmOutcome::Ok(ok) if ok.bits == want_bits => Verdict::Pass,
+        sut::AsmOutcome::Ok(ok) => {
+            let at = ok.bits.iter().zip(want_bits.iter()).position(|(a, b)| a != b);
+            fail("bits-differ", format!("model {} / assembler {} (first difference at bit {:?})", sut::bits_hex(&want_bits), sut::bits_hex(&ok.bits), at), ctx)
+        }
+        other => fail("valid-program-rejected", other.brief(), ctx),
+    }
+}
+
 impl Property for C01 {
     fn id(&self) -> &'static str {
         "C01"
@@ -137,6 +240,9 @@ impl Property for C01 {
         tier.pick(600_000, 3_000_000)
     }
     fn run(&self, t: &mut Tape, ctx: &mut CaseCtx) -> Verdict {
+        if crate::engine::gen_version() >= 4 && t.chance(1, 12) {
+            return run_position_function(t, ctx);
+        }
         let (prog, info) = gen_case(t, 24, true, true);
         let (src, _) = render(&prog);
         ctx.set_hash_str(&src);
